@@ -267,6 +267,8 @@ def mk_case(ids, kinds, mode, keep, rate, timeout, consume=('all',), rng=None):
         if i not in beh:
             st = rng.choice(STATUSES[:4]) if rng else None
             beh[i] = mk_beh(k, i, status=st)
+            if rng and k in ('verdict', 'bare', 'late', 'comparatorRaises', 'unreadable') and rng.random() < 0.35:
+                beh[i]['cd'] = True       # this recording carries comparison data of its own (a tolerance); the others none
             if rng and k in ('verdict', 'bare') and rng.random() < 0.12:
                 # the replayed code does part of its work in a child process of its own (multiprocessing): invisible in the
                 # verdict, in-process and in a dedicated worker alike
